@@ -253,9 +253,9 @@ def _run_methods(case, which, y, s, a, labels, idx, out):
     X = np.array([s, col1, col2], float).T
     scores_of = {"decision_function": list(s), "predict_proba": col1, "predict": col2}
     outcome = []
-    # the hard 0/1 labels of `predict` are also returned as bool / int8 / float16 arrays (exactly representable, so the
+    # the hard 0/1 labels of `predict` are also returned as bool / int8 arrays (exactly representable, so the
     # oracles are unchanged): the probabilities must not inherit a narrow dtype from the scores (seeded change C04d)
-    for method, pdt in (("decision_function", None), ("predict_proba", None), ("predict", None), ("predict", "bool"), ("predict", "int8"), ("predict", "float16")):
+    for method, pdt in (("decision_function", None), ("predict_proba", None), ("predict", None), ("predict", "bool"), ("predict", "int8")):
         est = MultiScore(predict_dtype=pdt).fit(None, None)
         sc = scores_of[method]
         if pdt:
